@@ -355,6 +355,14 @@ impl Family for A1 {
                     out.violations.push(viol(p, "wrong_secret_panic", m.clone()));
                 }
             }
+            // ---- and the right secret still works after the wrong ones were tried (no state may
+            // carry over from a rejected attempt to the next call)
+            if !s.wrong.is_empty() && !matches!(s.mode, Mode::Key { .. }) {
+                let d = run_decrypt(&s.mode, &ct, &s.dec_rs, &s.dec_ws, &trace, None, None);
+                if !(d.outcome.is_ok() && d.sink == pt) {
+                    out.violations.push(viol(rt_prop, "right_secret_rejected_after_wrong_one", format!("after a rejected attempt with another password/key the correct one no longer decrypts: {:?}", d.outcome)));
+                }
+            }
             // ---- mixed versions (C06): the pinned release reads what the working tree writes
             if let (Mode::Key { r_priv, s_priv, .. }, true) = (&s.mode, public_api) {
                 match crate::selftest::pinned_key_decrypt(&r_priv.a32(), &ct) {
